@@ -20,7 +20,7 @@ from tools.props import c18_hist
 from tools.props import c18_decl
 
 MANIFEST = {
-    "level_text": "Coq theorems (Properties/C18.v, no axioms) over the same faithful Gallina model as C05 (repaired parse_type_structure, visitors with the type_mappings lookup in visit_custom, Zod visitor/schema builder, repaired add_types_prefix) for every type, table, site and mode: C18_frame (if no custom name of the parsed structure is a key of the table, all five sites in both modes print byte for byte what they print without the table), C18_render_subst (the text rendered with the table is the text of the structure in which each mapped name is replaced by its target), C18_subst_ts_sites (at every site whose text is a TypeScript type - parameter, field, channel, return, event payload; 8 of the 10 site x mode pairs - the text printed with the table denotes the README shape in which every mapped name, at any depth and in map-key position, is its target, namespace-qualified at return/event sites; premise: outside C05's remaining classes), C18_abs_oracle_exact (the absolute clause of the run-time oracle is equivalent to that statement), C18_subst_all_sites (the same at all ten site x mode pairs, Zod schema sites included, unconditionally for tables with targets string/number/boolean and types nested less than 31 levels in the domain of the C10 round-trip theorem), C18_subst_all_sites_under_link (the same at all ten site x mode pairs for the rest of the domain, Zod schema sites included, under the explicit hypothesis that the builder's text parses to the builder's tree - zod_parse_link, the round trip of the C10 development - and the nesting premise tdepth < 60), C18_render_subst_tokens (the substitution lemma of the renderer on tokens, by structural induction on the TypeStructure: for every structure of the C10 domain and every table with targets string/number/boolean whose keys are legal untaken names, the text of the substituted structure lexes without error to the tokens of the unmapped text in which every types.N / N is replaced by M - the oracle's subst_tokens, guards included), C18_relational_unqualified_sites (the whole relational clause c18_ok of the oracle - token equation, no lexing error, no mapped name referred to, byte equality when no key is mentioned - for all types at parameter and field in plain mode and channel in both modes), the declaration model (coq/Model/C18Decl.v: the set of project types types.ts exports, TypeCollector::collect_used_types with nested discovery, table never consulted) with C18_never_declared (for every project, table and set of sites: outside class C18-4 - a project struct or enum whose own name is a key - no mapped name is declared), C18_declared_frame (the table never changes the declarations), C18_declared_reachable (nothing else is declared: every declared name is a project struct or enum reachable from a site through field types), C18_mapped_struct_declared + C18_never_declared_refuted (inside the class the defect is general; computed witness struct Timestamp), C18_decl_oracle_exact (the run-time oracle of the clause is the clause), and computed positive statements on the witnesses of the three repaired classes. Tied to /repo on every run by rendering every enumerated type with and without every table through the real code and comparing with the extracted model string for string; the extracted relational oracle is applied to the implementation's two texts.",
+    "level_text": "Coq theorems (Properties/C18.v, no axioms) over the same faithful Gallina model as C05 (repaired parse_type_structure, visitors with the type_mappings lookup in visit_custom, Zod visitor/schema builder, repaired add_types_prefix) for every type, table, site and mode: C18_frame (if no custom name of the parsed structure is a key of the table, all five sites in both modes print byte for byte what they print without the table), C18_render_subst (the text rendered with the table is the text of the structure in which each mapped name is replaced by its target), C18_subst_ts_sites (at every site whose text is a TypeScript type - parameter, field, channel, return, event payload; 8 of the 10 site x mode pairs - the text printed with the table denotes the README shape in which every mapped name, at any depth and in map-key position, is its target, namespace-qualified at return/event sites; premise: outside C05's remaining classes), C18_abs_oracle_exact (the absolute clause of the run-time oracle is equivalent to that statement), C18_subst_all_sites (the same at all ten site x mode pairs, Zod schema sites included, unconditionally for tables with targets string/number/boolean and types nested less than 31 levels in the domain of the C10 round-trip theorem), C18_subst_all_sites_under_link (the same at all ten site x mode pairs for the rest of the domain, Zod schema sites included, under the explicit hypothesis that the builder's text parses to the builder's tree - zod_parse_link, the round trip of the C10 development - and the nesting premise tdepth < 60), C18_render_subst_tokens (the substitution lemma of the renderer on tokens, by structural induction on the TypeStructure: for every structure of the C10 domain and every table with targets string/number/boolean whose keys are legal untaken names, the text of the substituted structure lexes without error to the tokens of the unmapped text in which every types.N / N is replaced by M - the oracle's subst_tokens, guards included), C18_relational_unqualified_sites (the whole relational clause c18_ok of the oracle - token equation, no lexing error, no mapped name referred to, byte equality when no key is mentioned - for all types at parameter and field in plain mode and channel in both modes), the declaration model (coq/Model/C18Decl.v: the set of project types types.ts exports, TypeCollector::collect_used_types with nested discovery, table never consulted) with C18_never_declared (for every project, table and set of sites: outside class C18-4 - a project struct or enum whose own name is a key - no mapped name is declared), C18_declared_frame (the table never changes the declarations), C18_declared_reachable (nothing else is declared: every declared name is a project struct or enum reachable from a site through field types), C18_mapped_struct_declared + C18_never_declared_refuted (inside the class the defect is general; computed witness struct Timestamp), C18_decl_oracle_exact (the run-time oracle of the clause is the clause), C18_decl_frame_oracle_exact + C18_decl_frame_model (the frame clause on declarations - exported names with the table = exported names without it - as the run-time oracle c18_decl_frame_ok applied to two real CLI runs of every decl-model project; the model satisfies it for every project), and computed positive statements on the witnesses of the three repaired classes. Tied to /repo on every run by rendering every enumerated type with and without every table through the real code and comparing with the extracted model string for string; the extracted relational oracle is applied to the implementation's two texts.",
     "design_ref": "DESIGN.md section 5 C18",
     "level_note": "Project level (stream history): the real CLI binary is run on projects in which the mapped name reaches the output by exactly one route, twice into one directory with an edit of the table in between, with the table coming from a -c file or from tauri.conf.json; judged against a fresh generation under the final table and by the unit-level oracle on the site text (no theorem: the cache decision is modelled by C08/C14). Proved for all inputs: frame (all sites, both modes), the absolute clause of substitution at all ten site x mode pairs (C18_subst_all_sites: no parsing hypothesis, C10 domain, nesting < 31; return/event through add_types_prefix), and since round 7 the relational token-level clause (text with table = text without table with N replaced by M, nothing referring to N left) at the 4 site x mode pairs whose text is the unqualified TypeScript type (parameter/field plain, channel both modes; side conditions: targets string/number/boolean, every key a legal untaken identifier, structure in the C10 domain, no unmapped project type literally called NSchema). STILL only on bounded sweeps and the run-time oracle: the relational clause (a) at return / event payload sites (types.-qualified text: needs the lexing theorem of C10LexTy.LX_plain redone for the qualified renderer and the three-token pattern types . N in replace_all), (b) at the two Zod schema sites (needs a token renderer for C10LexEx.LZ, replace_all past the colon of z.object({ error: ... }), and the extra side condition that no key is a Zod method name), (c) for generic keys such as DateTime<Utc> (multi-token patterns) - these are machine-checked only on bounded sweeps of the model (C18_sweep_depth1_partial in the property file; the depth-2 sweep is coq/Proofs/C18Sweep2.v, compiled by the thorough tier, kept out of the coqchk closure) and by the run-time oracle; no defect class is left there after the repairs C05-4-prefix-composite and C05-2-3-top-level-commas (C18-1..3 fixed). The clause 'N is never declared' is now inside the model at the level of the SET of exported project types (Model/C18Decl.v; theorem outside C18-4, refuted inside; streams declared-name and decl-model compare the set with the real types.ts on every run); not modelled: the text of the declarations (C10), the Params interfaces and event-only payload collection order. 'Never referenced by name' is checked on the type text of the five sites only. Mapping keys are assumed to be custom type names as type_to_string prints them (PathBuf, DateTime<Utc>), targets in {string, number, boolean}.",
     "technique": "Rocq/Coq proof over hand-written model + correspondence check (extracted OCaml vs Rust harness)"
@@ -36,7 +36,10 @@ RULE = ("a case is (Rust type, mapping table, site, mode); non-trivial = the typ
         "uuid::Uuid, x tables whose keys overlap each other, each in 4 (quick) / 8 (thorough) fresh resolvers)")
 RULE += ("; decl-model: random projects of 2-5 structs whose fields name each other, external names and primitives under Vec/Option/HashMap/tuple/Result, "
          "one command with 0-2 parameters, a return type, sometimes a channel and in 35% an event with a let-bound payload, a table that maps Uuid and in 45% of the cases a project struct: the set of "
-         "project types exported by types.ts of the real binary = declared_ts of the model, clause c18_decl_ok on the implementation's names")
+         "project types exported by types.ts of the real binary = declared_ts of the model, clause c18_decl_ok on the implementation's names; every project is generated with AND without the table and the two exported declaration sets "
+         "must be equal (frame clause on declarations, oracle c18_decl_frame_ok); 35% of the fields and the deterministic chain cases "
+         "(Root -> Inner -> Leaf, 9 shapes x 2 modes x 3 tables) combine a mapped plain name and a project type in ONE type expression "
+         "(map key + value, tuple, Vec of tuples, Result, nested maps), the project type reachable only through such fields")
 TRUSTED = [
     "Spec/C18Spec.v: token-level substitution reading of 'rendered as M' (types.N and N -> M; NSchema -> z.M()) over the lexer Spec/TsLex.v",
     "tools/props/c18_decl.py / c18_hist.py: regular expression that reads the exported names from types.ts; the project printer of the decl-model stream",
@@ -235,6 +238,7 @@ def run(rep):
     fcases = c18_hist.frame_cases(rep.tier)
     rep.add("project-frame", c18_hist.evaluate_frame(fcases))
     # the declaration model (Model/C18Decl.v) against the real binary on random projects; the clause N is never declared
+    rep.add("decl-corpus", c18_decl.evaluate(json.load(open(os.path.join(vlib.VERIF, "corpus", "C18", "decl", "cases.json")))))
     dcases = c18_decl.cases_for(rep.tier, random.Random(rep.seed + 18))
     douts = c18_decl.evaluate(dcases)
     rep.add("decl-model", douts)
@@ -242,6 +246,8 @@ def run(rep):
         "cases": len(dcases), "structs": sum(len(c["structs"]) for c in dcases),
         "tables_mapping_a_project_struct": sum(1 for c in dcases if any(k.startswith("S") for k in c["table"])),
         "clause_false_on_implementation": sum(1 for o in douts if not o.ok),
+        "declaration_frame_false_on_implementation": sum(1 for o in douts if o.detail.get("decl_frame_ok") != "true"),
+        "chain_cases_project_type_only_through_combined_fields": sum(1 for c in dcases if c.get("shape")),
         "projects_declaring_nothing": sum(1 for o in douts if not o.detail["declared_project_types"])}
     rep.extra.setdefault("distribution", {})["project-frame"] = {"cases": len(fcases), "cli_runs": 2 * len(fcases)}
     rep.extra.setdefault("distribution", {})["history"] = {
